@@ -167,7 +167,8 @@ let resp_s = function
       | 1 -> "RESP submit err notfound"
       | 2 -> "RESP submit err exists " ^ sn arg
       | 3 -> "RESP submit err nonunique " ^ sn arg
-      | _ -> "RESP submit err invaliddep " ^ sn arg)
+      | 4 -> "RESP submit err invaliddep " ^ sn arg
+      | _ -> "RESP submit err undefrq " ^ sn arg)
   | ROpen j -> "RESP open " ^ sn j
   | RClose c -> "RESP close " ^ (match int_of_n c with 0 -> "closed" | 1 -> "invalid" | _ -> "already")
   | RCancelOk (ids, already) -> Printf.sprintf "RESP cancel ok:%s:%s" (join "+" (List.map sn ids)) (sn already)
@@ -455,6 +456,7 @@ let tags_of (s : sys) (o : op) (outs : out list) (s' : sys) : string list =
       if mf <> None then add "submit-maxfails"
   | OpSubmitG (job, _, ts, _) ->
       add (match job with Some _ -> "graph-into-open" | None -> "graph-new");
+      if List.exists (function OResp (RSubmitErr (c, _)) -> int_of_n c = 5 | _ -> false) outs then add "graph-undefined-request-refused";
       let own = List.map (fun g -> let ((((id, _), _), _), _) = g in id) ts in
       List.iter (fun g -> let (_, deps) = g in if deps <> [] then add "graph-deps"; if List.exists (fun d -> not (List.mem d own)) deps then add "graph-dep-on-earlier-submit") ts
   | OpSched _ ->
@@ -663,8 +665,19 @@ let process_trace header lines =
                   (match o with OpLost _ | OpCancel _ | OpEnd (_, _, (EndFail | EndFollowStop)) | OpFailNext _ | OpTimer -> nontrivial := true | _ -> ());
                   (* the executable hypothesis of the core-level invariant theorems (RejHyp.v) *)
                   if not (step_fresh s o) then List.iter (fun p -> add_mon (Printf.sprintf "M %s FAIL hypothesis-step_fresh-violated step=%d" p !stepno)) [ "C02"; "C03"; "C05" ];
+                  (* hypotheses of the no-panic theorems (C09): the scheduler's answer is well formed
+                     ([NoPanicS7.sol_ok]), the request / answer satisfies [NoPanicU0.op_ok] *)
+                  (match o with
+                   | OpSched sol when s.s_core.c_flag && not (sol_ok s.s_core sol) -> add_mon (Printf.sprintf "M C09 FAIL hypothesis-sol_ok-violated step=%d" !stepno)
+                   | _ -> ());
+                  if not (op_ok s o) then add_mon (Printf.sprintf "M C09 FAIL hypothesis-op_ok-violated step=%d" !stepno);
                   match step s o with
                   | Ok (s', outs) ->
+                      (* the joint server / worker protocol invariant (NoPanicU0.v), on every state *)
+                      if not (proto_ok s') then
+                        add_mon (Printf.sprintf "M C09 FAIL protocol-invariant-violated step=%d codes=%s culprits=%s" !stepno
+                                   (String.concat "," (List.map sn (proto_why s')))
+                                   (String.concat ";" (List.map (fun ((w, t), c) -> sn w ^ ":" ^ tid_s t ^ ":" ^ sn c) (proto_culprits s'))));
                       List.iter (fun t -> if not (List.mem t !covtags) then covtags := t :: !covtags) (tags_of s o (snd (s', outs)) s');
                       state := Some s';
                       List.iter
